@@ -27,6 +27,9 @@ type trReq struct {
 	Upload    int    // request body size
 	Resp      int    // response body size
 	RespParts []int  // DATA frame sizes of the response
+	RespPads  []int  // padding of the i-th response DATA frame (-1: none); a value >= 1000 inserts a padding-only frame of (v-1000) octets before it
+	PadStorm  int    // number of padding-only DATA frames (255 octets of padding each) sent ahead of the body
+	RespWire  int    // flow-controlled octets of the response as sent (payload incl. padding), filled in when the peer responds
 	ReadMode  string // "all", "close_early", "close_now"
 	ReadFirst int    // close_early: bytes read before Close
 	ServerRST bool   // the peer resets the stream while the upload is in progress
@@ -213,6 +216,18 @@ func drawC12Transport(t *rapid.T) *Case {
 		for k := 0; k < 4; k++ {
 			r.RespParts = append(r.RespParts, rapid.IntRange(1, 16384).Draw(t, "resppart"))
 		}
+		if drawBool(t, "resppad", 40) {
+			for k := 0; k < 4; k++ {
+				pv := rapid.IntRange(-1, 255).Draw(t, "resppadlen")
+				if drawBool(t, "padonly", 25) {
+					pv = 1000 + rapid.IntRange(0, 255).Draw(t, "padonlylen")
+				}
+				r.RespPads = append(r.RespPads, pv)
+			}
+		}
+		if drawBool(t, "padstorm", 10) {
+			r.PadStorm = rapid.IntRange(80, 300).Draw(t, "padstormlen")
+		}
 		r.ReadMode = []string{"all", "all", "close_early", "close_now"}[rapid.IntRange(0, 3).Draw(t, "readmode")]
 		r.ReadFirst = rapid.IntRange(0, 5000).Draw(t, "readfirst")
 		r.ServerRST = r.Upload > 20000 && drawBool(t, "srst", 15)
@@ -355,6 +370,9 @@ func setupTransportWorld(w *World, aux *trAux, totalUp int) {
 			w.mu.Unlock()
 			body := bodyBytes("resp-"+r.Tag, r.Resp)
 			fs := HeadersFrames(id, peer.henc.Block([][2]string{{":status", "200"}, {"content-length", fmt.Sprint(len(body))}}), len(body) == 0, nil, -1, nil)
+			for j := 0; j < r.PadStorm && len(body) > 0; j++ {
+				fs = append(fs, DataFrame(id, nil, false, 255))
+			}
 			rest := body
 			k := 0
 			for len(rest) > 0 {
@@ -366,9 +384,30 @@ func setupTransportWorld(w *World, aux *trAux, totalUp int) {
 				if sz > len(rest) {
 					sz = len(rest)
 				}
-				fs = append(fs, DataFrame(id, rest[:sz], sz == len(rest), -1))
+				pad := -1
+				if k-1 < len(r.RespPads) {
+					pad = r.RespPads[k-1]
+				}
+				if pad >= 1000 {
+					// a DATA frame that carries nothing but padding
+					fs = append(fs, DataFrame(id, nil, false, pad-1000))
+					pad = -1
+				}
+				if pad >= 0 && sz+pad+1 > 16384 {
+					pad = -1
+				}
+				fs = append(fs, DataFrame(id, rest[:sz], sz == len(rest), pad))
 				rest = rest[sz:]
 			}
+			wire := 0
+			for _, f := range fs {
+				if f.Type == FData {
+					wire += len(f.Payload)
+				}
+			}
+			w.mu.Lock()
+			r.RespWire = wire
+			w.mu.Unlock()
 			return peer.write(fs...)
 		}})
 	}
@@ -593,7 +632,7 @@ func oracleC12Transport(w *World, c *Case) {
 			}
 		}
 		if u.Resp != nil {
-			sentData += int64(r.Resp)
+			sentData += int64(r.RespWire)
 		}
 	}
 	// credit for response bodies consumed or discarded by the application
